@@ -385,7 +385,8 @@ PROPS["C10"] = dict(
     theorems=["BB.Props.C10.execution_began_after_call", "BB.Props.C10.answered_by_later_execution", "BB.Props.C10.done_calls_answered",
               "BB.Props.C10.start_calls_get_no_outcome", "BB.Props.C10.outcome_received_once", "BB.Props.C10.coalesced_identical",
               "BB.Props.C10.executed_function_supplied", "BB.Props.C10.resolve_not_called", "BB.Props.C10.executions_le_calls",
-              "BB.Props.C10.no_state_remains", "BB.Props.C10.no_deadlock"],
+              "BB.Props.C10.no_state_remains", "BB.Props.C10.no_deadlock", "BB.Props.C10.every_call_is_eventually_answered",
+              "BB.Props.C10.answer_distance_bounded", "BB.Props.C10.demoRun_fair"],
     corr=[dict(family="exclusive", quick=250, thorough=8000, monitor=excl_monitor, no_shrink=True,
                nontrivial=has("coalesced", "fn_of_later_caller", "resolve_not_called", "deliver", "start_escape", "key_deleted",
                               "attach_in_resolve_to_return_gap", "outcome_before_hook", "fewer_executions_than_calls"),
@@ -393,8 +394,8 @@ PROPS["C10"] = dict(
                     "a call in the resolve-to-return gap answered by the next execution")],
     assumptions=["sync.Mutex / sync.Cond semantics modelled; the ghost clock orders attach and start-of-execution events (both inside / right after critical sections of the key's mutex)",
                  "work functions are environment steps: resolve at most once effective (sync.Once modelled), return eventually only where a theorem says so"],
-    open_statements=["'every call receives an outcome' as a leadsTo theorem under weak fairness and returning work functions (proved: no_deadlock = some state-changing step is "
-                     "enabled while any call is unanswered, and done_calls_answered)"],
+    open_statements=["every_call_is_eventually_answered assumes weak fairness for the state-dependent class `helpful t` (the step the call is waiting for); its derivation from "
+                     "per-action weak fairness of the scheduler is not written as a theorem"],
 )
 
 def c08_sticky_search(cx):
